@@ -170,7 +170,17 @@ func (c07) Gen(tier string, seed int64, emit0 func([]Ev)) {
 			emit([]Ev{{"op": "pat", "carrier": "stream", "abs": patEv(p), "stream": st, "tail": tail}})
 		}
 		p := randPAT(r, 1+r.Intn(8))
-		emit([]Ev{{"op": "ispmt", "abs": patEv(p), "bytes": B(append([]byte{0}, patSection(p)...))}})
+		dup := false
+		if len(p.Entries) >= 2 && r.Intn(3) == 0 {
+			// the same program_number listed twice with different PIDs (not a well-formed PAT: only the clause
+			// "PMT packet exactly when the PID is a value of the map the library reports" is judged)
+			k := r.Intn(len(p.Entries) - 1)
+			if p.Entries[k][0] != 0 {
+				p.Entries[len(p.Entries)-1][0] = p.Entries[k][0]
+				dup = true
+			}
+		}
+		emit([]Ev{{"op": "ispmt", "abs": patEv(p), "dup": dup, "bytes": B(append([]byte{0}, patSection(p)...))}})
 	}
 }
 
@@ -258,6 +268,18 @@ func (c07) Exec(h []Ev) []Ev {
 					}
 				}
 				e["true_pids"], e["any_err"] = tp, anyErr
+				// the values of the map the library itself reports (the classification is defined by that map)
+				mp := map[int]bool{}
+				for _, v := range pat.ProgramMap() {
+					mp[v] = true
+				}
+				mv := []int{}
+				for pid := 0; pid < 8192; pid++ {
+					if mp[pid] {
+						mv = append(mv, pid)
+					}
+				}
+				e["map_pids"] = mv
 				var p packet.Packet
 				_, nerr := psi.IsPMT(&p, nil)
 				e["nil_err"] = nerr != nil
